@@ -255,3 +255,37 @@ func EnvBool(key string) bool  { return false }
 func LastPanic() string { return "" }
 
 func EnvInt(key string) int { return 0 }
+
+// CaptureStderr runs f and returns what was written to os.Stderr meanwhile.
+func CaptureStderr(f func()) string {
+	old := os.Stderr
+	r, w, err := os.Pipe()
+	if err != nil {
+		f()
+		return ""
+	}
+	os.Stderr = w
+	done := make(chan string)
+	go func() {
+		var b strings.Builder
+		buf := make([]byte, 4096)
+		for {
+			n, err := r.Read(buf)
+			b.Write(buf[:n])
+			if err != nil {
+				break
+			}
+		}
+		done <- b.String()
+	}()
+	func() {
+		defer func() {
+			os.Stderr = old
+			w.Close()
+		}()
+		f()
+	}()
+	return <-done
+}
+
+func EnvSetBool(key string, val bool) {}
